@@ -80,6 +80,40 @@ def split (b : List α) (t : α) : List α × List α :=
   (rows.map (·.headD ((0 : Nat) : α)),
    (List.range (n + 1)).map fun i => (rows.getD (n - i) []).getD i ((0 : Nat) : α))
 
+/-! ### a curve value used more than once
+
+`BezierCurve` is a slice: its methods receive the control points by reference, and a curve is normally used many
+times (`InverseX` evaluates it 65 times, `JoinedCurve.Eval`, `Split` after `Eval`, …).  A method call is therefore
+modelled as returning its result TOGETHER WITH the control points it leaves behind; the code as it stands only
+reads them (`Eval` recurses on sub-slices, `Split` copies into its own `betas` rows). -/
+
+inductive BezOp (α : Type) where
+  | eval (t : α)
+  | split (t : α)
+
+inductive BezRes (α : Type) where
+  | point (x : α)
+  | halves (l r : List α)
+
+/-- One method call on a curve value: result and the control points afterwards. -/
+def bezStep (table : List (List Nat)) (b : List α) : BezOp α → BezRes α × List α
+  | .eval t => (.point (bezEval table b t), b)
+  | .split t => (.halves (split b t).1 (split b t).2, b)
+
+/-- A sequence of method calls on ONE curve value: each call sees the control points the previous calls left. -/
+def bezRun (table : List (List Nat)) : List α → List (BezOp α) → List (BezRes α) × List α
+  | b, [] => ([], b)
+  | b, op :: ops =>
+    let r := bezStep table b op
+    let rs := bezRun table r.2 ops
+    (r.1 :: rs.1, rs.2)
+
+/-- **Specification** of a call in such a sequence: the answer for the ORIGINAL control points `b`
+(evaluation = de Casteljau's point). -/
+def bezOpSpec (b : List α) : BezOp α → BezRes α
+  | .eval t => .point (deCasteljau b t)
+  | .split t => .halves (split b t).1 (split b t).2
+
 end Bezier
 
 section BezPoly
@@ -108,7 +142,7 @@ structure Seg (α : Type) where
 deriving Repr
 
 section SegCurve
-variable [Add α] [Sub α] [Mul α] [Div α] [NatCast α] [LT α] [DecidableLT α]
+variable [Add α] [Sub α] [Mul α] [Div α] [NatCast α] [LT α] [DecidableLT α] [BEq α]
 
 /-- `Segment.Length()` = `s[1].Sub(s[0]).Norm()` = `sqrt(v·v)`. -/
 def segLen (sqrt : α → α) (s : Seg α) : α :=
@@ -129,10 +163,24 @@ def searchGE (x : α) : List α → Nat
   | [] => 0
   | a :: as => if a < x then searchGE x as + 1 else 0
 
-/-- Point of a segment at offset `off` from its start. -/
+/-- Point of a segment at offset `off` from its start (the tail of `SegmentCurve.Eval`): a segment
+of length zero (a repeated vertex of the polyline) is the point `seg[0]`; otherwise
+`seg[0] + (seg[1]-seg[0])*(off/len)`. -/
 def segPoint (sqrt : α → α) (s : Seg α) (off : α) : α × α :=
-  let frac := off / segLen sqrt s
-  (s.ax + (s.bx - s.ax) * frac, s.ay + (s.by' - s.ay) * frac)
+  let len := segLen sqrt s
+  if len == ((0 : Nat) : α) then (s.ax, s.ay)
+  else
+    let frac := off / len
+    (s.ax + (s.bx - s.ax) * frac, s.ay + (s.by' - s.ay) * frac)
+
+/-- The tail of `SegmentCurve.Eval` before the zero-length guard was added: `off / 0` is `0/0` or
+`x/0`, and the product with the zero vector is NaN; `none` = the NaN point. -/
+def segPointNaN (sqrt : α → α) (s : Seg α) (off : α) : Option (α × α) :=
+  let len := segLen sqrt s
+  if len == ((0 : Nat) : α) then none
+  else
+    let frac := off / len
+    some (s.ax + (s.bx - s.ax) * frac, s.ay + (s.by' - s.ay) * frac)
 
 def dummySeg : Seg α := ⟨((0 : Nat) : α), ((0 : Nat) : α), ((0 : Nat) : α), ((0 : Nat) : α)⟩
 
@@ -146,18 +194,40 @@ def segEvalOld (sqrt : α → α) (segs : List (Seg α)) (t : α) : α × α :=
   let seg := segs.getD idx dummySeg
   segPoint sqrt seg (l - ct.1.getD idx ((0 : Nat) : α))
 
-/-- `SegmentCurve.Eval` (repaired): step back one segment when the found start offset lies
-beyond `l`. -/
+/-- `SegmentCurve.Eval` on the fields of a `SegmentCurve` value (`segments`, `lengths` = start offsets,
+`totalLength`), as repaired for F7: step back one segment when the found start offset lies beyond `l`. -/
+def segEvalOn (sqrt : α → α) (segs : List (Seg α)) (starts : List α) (total : α) (t : α) : α × α :=
+  let l := t * total
+  let idx0 := searchGE l starts
+  let idx := if idx0 = segs.length ∨ (0 < idx0 ∧ l < starts.getD idx0 ((0 : Nat) : α)) then idx0 - 1 else idx0
+  let seg := segs.getD idx dummySeg
+  segPoint sqrt seg (l - starts.getD idx ((0 : Nat) : α))
+
+/-- `NewSegmentCurve(segs).Eval(t)`. -/
 def segEval (sqrt : α → α) (segs : List (Seg α)) (t : α) : α × α :=
+  let ct := cumulative ((0 : Nat) : α) (segs.map (segLen sqrt))
+  segEvalOn sqrt segs ct.1 ct.2 t
+
+/-- `SegmentCurve.Eval` as it was before the zero-length guard (index selection as repaired for F7, no
+guard in the interpolation): `none` = `{NaN NaN}`. -/
+def segEvalNaN (sqrt : α → α) (segs : List (Seg α)) (t : α) : Option (α × α) :=
   let ct := cumulative ((0 : Nat) : α) (segs.map (segLen sqrt))
   let l := t * ct.2
   let idx0 := searchGE l ct.1
   let idx := if idx0 = segs.length ∨ (0 < idx0 ∧ l < ct.1.getD idx0 ((0 : Nat) : α)) then idx0 - 1 else idx0
   let seg := segs.getD idx dummySeg
-  segPoint sqrt seg (l - ct.1.getD idx ((0 : Nat) : α))
+  segPointNaN sqrt seg (l - ct.1.getD idx ((0 : Nat) : α))
+
+/-- The segments form a polyline: each one starts where the previous one ends ("a sequence of consecutive
+segments along the curve", `NewSegmentCurve`). -/
+def Connected : List (Seg α) → Prop
+  | s :: s' :: rest => s.bx = s'.ax ∧ s.by' = s'.ay ∧ Connected (s' :: rest)
+  | _ => True
 
 /-- **Specification**: walk along the polyline; the point at arclength `l` lies on the first
-segment whose end has not been passed (the last segment takes everything beyond). -/
+segment whose end has not been passed (the last segment takes everything beyond).  For `l ≥ 0` a
+segment of length zero (repeated vertex) is never entered unless it is the last one: it takes up no part
+of the curve. -/
 def walk (sqrt : α → α) : List (Seg α) → α → α × α
   | [], _ => (((0 : Nat) : α), ((0 : Nat) : α))
   | [s], l => segPoint sqrt s l
@@ -211,6 +281,29 @@ def bisectionSearch (f : α → α) (x : α) : Option α :=
       let r := bisectLoop f x 63 lh.1 lh.2
       some ((r.1 + r.2) / ((2 : Nat) : α))
 
+/-- `CurveEvalX(c, x)`: the `y` value where the curve (given by its coordinate functions `fx`, `fy`) has abscissa `x`;
+`none` = NaN (no bracket). -/
+def curveEvalX (fx fy : α → α) (x : α) : Option α :=
+  match bisectionSearch fx x with
+  | none => none
+  | some t => some (fy t)
+
 end Bisect
+
+/-! ## CurveMesh -/
+
+section CurveMesh
+variable [Div α] [NatCast α]
+
+/-- The `k`-th sample of `CurveMesh(c, n)`: `c.Eval(0.0)` for the first, `c.Eval(float64(k)/float64(n))` after. -/
+def meshSample {β : Type} (f : α → β) (n : Nat) : Nat → β
+  | 0 => f ((0 : Nat) : α)
+  | k + 1 => f (((k + 1 : Nat) : α) / ((n : Nat) : α))
+
+/-- `CurveMesh(c, n)`: the segments in the order they are added (`c1` of a segment is the `c2` of the previous). -/
+def curveMesh {β : Type} (f : α → β) (n : Nat) : List (β × β) :=
+  (List.range n).map fun i => (meshSample f n i, meshSample f n (i + 1))
+
+end CurveMesh
 
 end M3d.Curves
